@@ -419,9 +419,14 @@ func replayNative(nat *sx.Native, id string, h H, v sx.Violation) (string, bool,
 }
 
 func runReplay(nat *sx.Native, doc replayDoc, path string) (bool, string) {
-	bin, err := nat.BuildMode(doc.Pkg, doc.Tags, false, doc.Kind == "memory-safety")
+	parallel := doc.Property == "C19"
+	bin, err := nat.BuildMode(doc.Pkg, doc.Tags, parallel, doc.Kind == "memory-safety")
 	if err != nil {
 		return false, err.Error()
+	}
+	if parallel {
+		os.Setenv("VERIF_PARALLEL", "1")
+		defer os.Unsetenv("VERIF_PARALLEL")
 	}
 	os.Setenv("VERIF_TIER_N", fmt.Sprint(doc.Tier))
 	rep := 1
@@ -434,6 +439,9 @@ func runReplay(nat *sx.Native, doc replayDoc, path string) (bool, string) {
 	}
 	switch doc.Kind {
 	case "assert":
+		if strings.HasPrefix(no.Outcome, "VERIF-RACE") {
+			return true, no.Outcome
+		}
 		if no.Outcome == "VERIF-ASSERT-FAILED: "+doc.Label {
 			return true, no.Outcome
 		}
